@@ -34,7 +34,7 @@ def n_trace(ctx):
     if "r" in _tr:
         return _tr["r"]
     ex = waterlib.prepare_examples(ctx)
-    nl, endy = (8, 1995) if ctx.thorough else (4, 1982)
+    nl, endy = (12, 1995) if ctx.thorough else (9, 1982)     # the same scenario lines as waterlib.run_trace
     lf = os.path.join(ctx.work, "ntrace_lines.txt")
     with open(lf, "w") as f:
         f.write("\n".join(l + " LeachingDepth=20" for l in waterlib.trace_lines(ctx, nl, endy)) + "\n")
@@ -92,7 +92,7 @@ def correspond(ctx):
 
 
 ORACLE_KEYS = ("transport-balance", "transport-removes-n", "instability-flag", "n-balance-loss", "n-balance-gain",
-               "deposition", "irrigation-n", "irrigation-file-n", "irrigation-not-in-file", "negative-dissolution",
+               "deposition", "irrigation-n", "irrigation-file-n", "irrigation-not-in-file", "negative-dissolution", "mineral-n-below-profile",
                "denit-removes-more-than-counted", "denit-balance")
 
 
@@ -106,6 +106,6 @@ def oracle(ctx, search):
         fails.append(Fail(key="trace-crash", what="traced run aborted", stderr=terr[-800:]))
     for l in orc + torc:
         if l.startswith(ORACLE_KEYS):
-            fails.append(Fail(key=re.sub(r"(residual|delta|expected|before|after|counted|min-preclamp|zeit|water|file-mm|delta-minus-deposition|file-n|ums-before|ums-after|dsumm)=\S+", "", l)[:100].strip(), what=l))
+            fails.append(Fail(key=re.sub(r"(residual|delta|expected|before|after|counted|min-preclamp|zeit|water|file-mm|delta-minus-deposition|file-n|ums-before|ums-after|dsumm|value|cell)=\S+", "", l)[:100].strip(), what=l))
     fails += daynlib.oracle_day(ctx, daynlib.C02_KEYS if ctx.id == "C02" else daynlib.C07_KEYS) or []
     return fails
